@@ -99,6 +99,8 @@ class UserAddEdge(ActionGroup):
                 )
             )
         else:
+            # undo a forced removal of the conflicting edge before refusing
+            self._rollback()
             raise InvalidActionError(
                 f"Expected degree of 0 or 1 before adding edge, got {out_degree_source}"
             )
